@@ -98,6 +98,9 @@ def run_case(case):
     internal = failure == "missing_dims"
     spec = {"vars": [["out", ["t"] if internal else []], ["E", []]],
             "sizes": {"t": 2}, "ret": "tuple", "log": None}
+    if case.get("tiny"):
+        # data of small magnitude: conflicting values differ by 1e-12
+        spec["scale"] = 1e-12
     names = ("out", "E")
     var_dims = {"out": "t"} if internal else None
     var_coords = {"t": [10, 20]} if internal else None
@@ -375,6 +378,23 @@ def run_case(case):
                     f"the crop directory was removed while the "
                     f"{farmer_kind}'s file did not hold the data yet "
                     f"(events {events})")
+        if not gone and failure == "none" and farmer_kind == "harvester" \
+                and not mem_only and case.get("redo"):
+            # the crop was kept; the user throws the stored dataset away and
+            # reaps the crop once more: same rule, the crop may only go after
+            # the file holds the data again
+            with under_test("delete_ds"):
+                farmer.delete_ds()
+            events.clear()
+            with rmtree_hook(on_rmtree):
+                with under_test("second reap"):
+                    crop.reap()
+            require(not os.path.exists(cdir), "clean-up-rule",
+                    "second reap (defaults) kept the crop")
+            require("data-present" in events, "deleted-before-delivery",
+                    f"second reap after delete_ds(): the crop directory was "
+                    f"removed while the harvester's file did not hold the "
+                    f"data (events {events})")
         if not gone and partial_ok:
             with under_test("finish after partial reap"):
                 crop.grow_missing()
@@ -475,7 +495,9 @@ def enumerate_cases(tier, seed):
                                     "n": rng.randint(2, 6),
                                     "np_seed": rng.randint(0, 2**31),
                                     "pre_order": rng.choice(
-                                        [None, "desc", "mixed"])}
+                                        [None, "desc", "mixed"]),
+                                    "tiny": rng.random() < 0.4,
+                                    "redo": rng.random() < 0.6}
                             bt = rng.choice(["default", "batchsize",
                                              "num_batches"])
                             tot = case["n"] if farmer == "sampler" else N
